@@ -361,17 +361,31 @@ def P24(m, R):
     if loop is None:
         raise AnalysisError('anchor vanished: scan loop of remove_formatting')
     idx, point, active = [norm(x) for x in loop.target.elts]
-    endblk = None
-    for n in ast.walk(loop):
-        if isinstance(n, ast.If) and norm(n.test) in ('%s == end' % idx, 'end == %s' % idx):
-            endblk = n
-    if endblk is None:
-        R.undecided(f, loop, 'block for idx == end not found', construct=cons)
+    # the statements that run for idx == end and not for an interior point, whatever the if / elif shape
+    Ltxt = 'len(%s.%s)' % (f.self_name, ro.TEXT)
+    extra = {'end != %s' % Ltxt: True, 'end == %s' % Ltxt: False, 'end < %s' % Ltxt: True}
+    for n_ in f.body:
+        if isinstance(n_, ast.Assign) and isinstance(n_.value, ast.List) and not n_.value.elts and isinstance(n_.targets[0], ast.Name):
+            extra[n_.targets[0].id] = True
+            extra['not ' + n_.targets[0].id] = False
+    ran = {}
+    try:
+        for region, rank in (('inside', 2), ('=end', 3)):
+            got = []
+            run_block(loop.body, merge_valuations(order_valuation({idx: rank, 'start': 1, 'end': 3}), flag_valuation({}, extra)), got.append)
+            ran[region] = got
+    except Undecided as ex:
+        R.undecided(f, loop, 'scan not interpreted: %s' % ex, construct=cons)
         return
+    end_stmts = [s_ for s_ in ran['=end'] if not any(s_ is t_ for t_ in ran['inside'])]
+    if not end_stmts:
+        R.viol(f, loop, 'nothing is restarted at the end of the range: the removed settings stay off beyond it', construct=cons)
+        return
+    endblk = end_stmts[0]
     problems = []
     start_writes = []
     stop_ext = []
-    for n in ast.walk(ast.Module(body=endblk.body, type_ignores=[])):
+    for n in ast.walk(ast.Module(body=end_stmts, type_ignores=[])):
         if isinstance(n, ast.AugAssign) and norm(n.target) == '%s.%s' % (point, ro.START):
             start_writes.append(('augment', norm(n.value), n))
         elif isinstance(n, ast.Assign) and norm(n.targets[0]) == '%s.%s' % (point, ro.START):
